@@ -1,6 +1,6 @@
 (* Extraction of the executable model (ExtrOcamlBasic only; Z/N/positive stay inductive). *)
 Require Extraction.
 Require Import ExtrOcamlBasic.
-From Formula Require Import Base.Utf8 Lex.LineMap Lex.Scanner Syn.Ast Syn.Parser Num.Dec Sem.Value Sem.Builtins Sem.Clock Sem.Eval Sem.Fields Sem.Runner.
+From Formula Require Import Base.Utf8 Lex.LineMap Lex.Scanner Syn.Ast Syn.Parser Num.Dec Num.Float Sem.Value Sem.Builtins Sem.Clock Sem.Eval Sem.Fields Sem.Runner.
 Extraction Language OCaml.
-Extraction "model.ml" decode_all encode_rune line_starts line_col direct_count scan_all kind_code parse_source parse_tokens strip eval resolve_entry dec_of_string dec_to_string dec_cmp strip_zeros format_input fields_of fields_not_local rrun new_runner today_of now_of Z.mul Z.add Z.opp Z.div_eucl Z.compare.
+Extraction "model.ml" decode_all encode_rune line_starts line_col direct_count scan_all kind_code parse_source parse_tokens strip eval resolve_entry dec_of_string dec_to_string dec_cmp strip_zeros format_input fields_of fields_not_local rrun new_runner today_of now_of f64_of_dec f64_bits Z.mul Z.add Z.opp Z.div_eucl Z.compare.
